@@ -9,11 +9,14 @@ From C03 Require Import Model Spec Corr Digits Utf8 ReaderLemmas Reading Atoms A
    in_domain = readable configuration (escape on; base announced by *print-radix* or ten) and an object made of
    integers of any size, ratios (base ten without radix), floats whose text the reader classifies as that
    format, strings (valid UTF-8 when *print-readably*, else free of quote, backslash and control bytes),
-   characters the reader accepts after #\, symbols whose spelling reads back as that symbol, lists, dotted
-   lists, vectors, arrays (base ten without radix), nested without bound.  Every clause that narrows the
-   guard is a known finding with a refutation below.
+   characters (every Unicode scalar, NUL included), symbols and keywords (every ASCII name except t / T - with
+   *print-case* nil every name whatsoever -: names that need |bars| get them, also inside lists under
+   *print-pretty*, with | \ and control bytes escaped), lists, dotted lists, vectors, arrays (under every base
+   and radix), nested without bound.  Every clause that still narrows the guard is a known finding with a
+   refutation below; the clauses of thirteen repaired findings (repo_fixes C03-2 ... C03-14) are gone.
    PARTIAL in two respects stated here: floats are opaque (format and text; that strconv / big.Float return the
-   number printed is checked on the implementation only), symbol names are ASCII. *)
+   number printed is checked on the implementation only), symbol names are ASCII unless *print-case* is nil
+   (the model's caseName is the ASCII one). *)
 Theorem C03_read_print_partial : forall c x, in_domain c x = true ->
   exists y, read_all (print c x) = Some [y] /\ obj_equal x y = true /\ type_of x = type_of y.
 Proof. exact read_print. Qed.
@@ -47,6 +50,26 @@ Print Assumptions C03_string_read_print.
 Theorem C03_utf8_decode_encode : forall r rest, is_scalar r = true -> decode_rune (utf8 r ++ rest) = (r, length (utf8 r)).
 Proof. exact decode_encode. Qed.
 Print Assumptions C03_utf8_decode_encode.
+
+(* (3') symbols and characters in their own right, after the repairs.
+   Every ASCII name except t / T, under every print case, flat or pretty, reads back as a symbol equal to it
+   (slip compares symbols without regard to case) ... *)
+Theorem C03_symbol_read_print : forall c name, readable_cfg c = true -> forallb (fun b => (b <? 128)%N) name = true -> is_t name = false ->
+  exists y, read_all (print c (OSym name)) = Some [y] /\ obj_equal (OSym name) y = true /\ type_of y = TSymbol.
+Proof. exact symbol_read_print. Qed.
+Print Assumptions C03_symbol_read_print.
+(* ... and with *print-case* nil every name whatsoever (any bytes, non-ASCII, the empty name; only t / T excepted:
+   known finding C03-symbol-named-t) reads back as the symbol with exactly that name: Symbol.needPipes asks for
+   bars whenever the bare spelling would be read as something else (a byte the token modes reject, the spelling
+   of a number, the lone dot, nil, a leading @), and the escapes written between bars are undone by the reader *)
+Theorem C03_symbol_exact : forall c name, case_is_none c = true -> forallb (fun b => (b <? 256)%N) name = true -> is_t name = false ->
+  read_all (symbol_text c name) = Some [OSym name].
+Proof. exact symbol_exact. Qed.
+Print Assumptions C03_symbol_exact.
+(* every character - any Unicode scalar, the NUL character, parentheses, quotes, semicolon ... included - reads back as itself *)
+Theorem C03_character_read_print : forall c r, readable_cfg c = true -> is_scalar r = true -> read_all (print c (OChr r)) = Some [OChr r].
+Proof. exact character_read_print. Qed.
+Print Assumptions C03_character_read_print.
 
 (* (4) pretty printing changes only white space.
    (a) whatever the margin, offsets and size fields, appendTree writes '(' the texts of the elements in order,
@@ -83,10 +106,15 @@ Theorem C03_wire_roundtrip : forall payload more, (N.of_nat (length payload) <= 
 Proof. exact wire_roundtrip. Qed.
 Print Assumptions C03_wire_roundtrip.
 
-(* (6) outside the guard the faithful model does not carry the object round: sixteen witnesses, one per guard
-   clause (unescaped quote in a string, single float and integral double printed without readably, ratio and
-   array with *print-radix*, createTree dropping |bars|, symbol names a? 123 e-acute a|b nil . and the keyword
-   with a blank, #\( and the NUL character, the empty symbol under :capitalize) — the known findings *)
+(* (6) outside the guard the faithful model does not carry the object round: one witness per guard clause
+   (unescaped quote in a string, single float and integral double printed without readably, ratio with
+   *print-radix*, the symbol named t) — the known findings.  Repaired and therefore gone from the list: the Go index panic on the empty
+   symbol under :capitalize (C03-2), names that read as numbers (C03-3), createTree dropping |bars| (C03-4),
+   | and \ between bars (C03-5), keywords that need bars (C03-6), ? in a name (C03-7),
+   non-ASCII names (C03-8: the reader takes them as tokens), the symbol named . (C03-9),
+   symbols named nil (C03-10), names that begin with @ (C03-11),
+   the NUL character (C03-12: #\Null), the characters the reader rejects after #\ (C03-13: by code),
+   the rank of an array under *print-radix* (C03-14). *)
 Theorem C03_outside_guard_refuted : forallb (fun w => refuted (fst w) (snd w)) refutation_witnesses = true.
 Proof. exact outside_guard_refuted. Qed.
 Print Assumptions C03_outside_guard_refuted.
